@@ -1,0 +1,18 @@
+//go:build verif
+
+// Contracts for the tvc verifier (/verif). Comment-only: with the `verif` tag off this file does not exist,
+// with it on it adds no code. Syntax: /verif/DESIGN.md appendix A.
+
+package datapath
+
+//@ for C14
+//@ filemode bv
+
+//@ # ipvlan redirect rule: one u32 key on the IPv4 destination address (offset 16 of the IPv4 header)
+//@ func dstIPRule
+//@   requires ip != nil
+//@   requires (len(ip.IP) == 4 || v4mapped(ip.IP)) && len(ip.Mask) == 4
+//@   panics
+//@   ensures result1 == nil
+//@   ensures result0 != nil && result0.offset == 16
+//@   ensures forall a bv32 :: ((a & result0.mask) == result0.value) <==> contains4(ip, a)
